@@ -80,6 +80,17 @@ CHECKS = {
             "src/pest/pairs.py by an exhaustive correspondence run (all texts over {a,b,\\n} to length 7/9 x all offsets and spans, plus other "
             "separators and random long texts); the same run evaluates the property's formula directly on the real code.",
             "Lean 4 proof by induction over the text (model = spec) + exhaustive differential correspondence"),
+    "C15": ("world", "other",
+            "Proved (Lean, World model: shared built-in table, parser objects aliasing it, generated modules, idempotent per-node caches): no "
+            "history of operations writes the shared table or a caller's rule objects (shared_table_invariant, mappings_invariant), the result of "
+            "a call after ANY history equals the result in a fresh world (history_independence, module_history_independence), a parse writes "
+            "only idempotent cache flags (parse_writes_only_caches), and a generic commutation lemma (interleaving_irrelevant / "
+            "schedule_independent) for steps whose only shared writes are such cache fills. The theorems are about the model's step "
+            "granularity: CPython's GIL, the regex module's caches and real preemption are not modelled - hence level 'other'. Checked on the "
+            "implementation on every run: a write-set monitor during parse()/newParser/generate, random histories vs the same call in a FRESH "
+            "interpreter process, N threads on shared objects vs sequential results, and exact correspondence of every parse result of the "
+            "history with the World model.",
+            "Lean 4 invariant proof over histories of a process-level model + write-set monitor, fresh-process differential and thread stress on the implementation"),
     "C16": ("core", "other",
             "On SOI-free grammars in all four modes: parse(r,t,start_pos=k) equals parse(r,t[k:]) shifted by k (trees and failure positions), "
             "and changing the characters before k changes nothing; every correspondence request of the run uses random k as well; theorem "
@@ -98,6 +109,8 @@ ENGINES = [
      "kind_free_text": "Lean model lean/PestModel/{Stack,State}.lean + proofs Props/C09.lean; exhaustive + random histories, three-way comparison impl / full-copy reference / Lean model"},
     {"name": "core", "path": "harness/eng_core.py", "serves_properties": ["C01", "C02", "C03", "C04", "C05", "C06", "C07", "C08", "C13", "C16"],
      "kind_free_text": "Lean models Spec (L0), Interp (L1), Gen (LG), Opt; proofs Lemmas/{Frame,Refine,GenEq}.lean, Props/C0x.lean; grammar generator; four execution modes; per-property oracles"},
+    {"name": "world", "path": "harness/eng_world.py", "serves_properties": ["C15"],
+     "kind_free_text": "Lean model lean/PestModel/World.lean + proofs Props/C15.lean; write-set monitor, history search vs fresh process, thread stress, correspondence with the World model"},
     {"name": "pratt", "path": "harness/eng_pratt.py", "serves_properties": ["C18"],
      "kind_free_text": "Lean model lean/PestModel/Pratt.lean + proofs Props/C18.lean; tables x streams, three-way comparison"},
     {"name": "text", "path": "harness/eng_text.py", "serves_properties": ["C14"],
